@@ -51,11 +51,11 @@ def check(run):
         'Stop called at buffer occupancies {0,1,2,cap-1,cap,cap+1,random} with the worker idle or parked mid-append, three policies; observable: everything accepted is '
         'delivered in order when Stop returns, Stop returns within the deadline', keep_empty=False, timeout=3000)
     # 2. every logger kind through Refresh + Destroy, sinks read immediately, descriptors
-    kinds = ['syncfile', 'asyncfile', 'console', 'file', 'rolling', 'rollingsep', 'rollingasync', 'rollingsepasync', 'syncrollingapp']
+    kinds = ['syncfile', 'asyncfile', 'fifofile', 'console', 'file', 'rolling', 'rollingsep', 'rollingasync', 'rollingsepasync', 'syncrollingapp']
     kcases = []
     for kind in kinds:
         for lay in (0, 1):
-            for pol in (['Block'] if kind in ('syncfile', 'console', 'file', 'rolling', 'rollingsep', 'syncrollingapp') else ['Block', 'Discard', 'DiscardOldest']):
+            for pol in (['Block'] if kind in ('syncfile', 'fifofile', 'console', 'file', 'rolling', 'rollingsep', 'syncrollingapp') else ['Block', 'Discard', 'DiscardOldest']):
                 for _ in range(1 if quick else 6):
                     kcases.append('%s %d %s %d %d 0' % (kind, lay, pol, rng.choice([0, 1, 7, 60]), rng.choice([0, 1, 5])))
     # rolling kinds again with the events spread over three rotation boundaries (descriptors are retired and closed on the way)
